@@ -16,6 +16,8 @@ import (
 	quickbuilder "github.com/ipfs/go-unixfsnode/data/builder/quick"
 	dagpb "github.com/ipld/go-codec-dagpb"
 	"github.com/ipld/go-ipld-prime"
+	"github.com/ipld/go-ipld-prime/codec"
+	"github.com/ipld/go-ipld-prime/datamodel"
 	cidlink "github.com/ipld/go-ipld-prime/linking/cid"
 	"github.com/multiformats/go-multihash"
 
@@ -205,6 +207,42 @@ func TestC11(t *testing.T) {
 				})
 			}
 		}
+	}
+	// a link system whose encoder table knows dag-pb but not raw (a private multicodec registry): the
+	// builder cannot store leaves through it. It may refuse; what it may not do is come back with sizes
+	// that leave the leaves out
+	for _, n := range []int{0, 1, 10, 40, 700} {
+		n := n
+		r.Case(fmt.Sprintf("file-no-raw-encoder/n%d", n), map[string]any{"len": n, "chunker": "size-16", "encoders": "dag-pb only"}, func(c *mon.Case) {
+			content := gen.Content(c.Rand(), "rand", n)
+			st := store.New()
+			ls := st.LinkSystem(false)
+			inner := ls.EncoderChooser
+			ls.EncoderChooser = func(lp datamodel.LinkPrototype) (codec.Encoder, error) {
+				if clp, ok := lp.(cidlink.LinkPrototype); ok && clp.Prefix.Codec == cid.Raw {
+					return nil, fmt.Errorf("no encoder registered for multicodec code 0x55 (raw)")
+				}
+				return inner(lp)
+			}
+			var l ipld.Link
+			var sz uint64
+			var err error
+			if !c.Guard("BuildUnixFSFile", func() {
+				withWidth(3, func() { l, sz, err = builder.BuildUnixFSFile(bytes.NewReader(content), "size-16", ls) })
+			}) {
+				return
+			}
+			c.Count("builds_without_raw_encoder", 1)
+			if err != nil {
+				c.Count("builds_refused", 1)
+				if l != nil {
+					c.Violation("C11|link-with-error", "BuildUnixFSFile through a link system without a raw encoder returned link %v together with error %v", l, err)
+				}
+			} else {
+				checkSizes(c, st, linkCid(l), sz, fmt.Sprintf("file of %d bytes built through a link system without a raw encoder", n))
+			}
+			c.Sig("file-no-raw-encoder", true)
+		})
 	}
 	if !r.Quick() {
 		// a file of 2^32+1 bytes (streamed zeros): byte counts must not wrap at 32 bits
